@@ -24,18 +24,18 @@
      windows (known_findings.json): F20/F21 commit, F37 sdlag, F25 dup, F38 zombie.  The other three
      window flags (F26 late, F22 sdspawn, F32 stale) are NOT needed.
    * `escapes_C03 cs evs = false` : nobody escaped a snapshot, i.e. (1) no instance was created by Run()'s
-     own spawn loop after a completed shutdown (`ENewInst` by a thread whose API call in progress is Run;
-     with the hardened model an instance can only be created inside Run / StartProcess / RestartProcess),
-     and (2) at every `EShutdownEnd` every instance that exists and is not in that shutdown's snapshot has
-     already reached `EInstExit` (its goroutine is over) or is "excused": created by a
-     StartProcess/RestartProcess call, never in a snapshot, and not yet begun by any goroutine (`EBegin`).
-     So an explicit start that overlaps the shutdown is INSIDE the theorem (it waits for the registry lock
-     that the shutdown holds); (2) fails when Run()'s spawn loop overlaps the shutdown (F22).
+     own spawn loop after a completed shutdown, and (2) at every `EShutdownEnd` every instance that exists
+     and is not in that shutdown's snapshot has already reached `EInstExit` (its goroutine is over) or is
+     "excused": created by a StartProcess/RestartProcess call and never in a snapshot.  So an explicit
+     start that overlaps the shutdown is INSIDE the theorem (it waits for the registry lock that the
+     shutdown holds); (2) fails only when Run()'s spawn loop overlaps the shutdown (F22).  The hypothesis is
+     needed for clause (b) only: clause (a) is proved from "active and not finished => registered => in the
+     snapshot" (the registry lock is held for the whole call), see C03x_partial below.
      The window flag w_sdspawn cannot replace (1): see C03_windows_not_enough.
    No well-formedness condition on the configuration is needed. *)
 From Coq Require Import List ZArith NArith Bool.
 From PC.Base Require Import Assoc.
-From PC.Sup Require Import Model Monitors Sim RelC03 RelC03b ExC03.
+From PC.Sup Require Import Model Monitors MonC12w Check Sim RelC03 RelC03b RelC03x ExC03.
 Import ListNotations.
 
 Theorem C03_main_partial : forall cs ord evs s,
@@ -65,6 +65,23 @@ Theorem C03_declarative : forall cs ord evs s,
      In i (o_after_sd_spawn o) \/ (o_byapi (oi_get o i) = true /\ o_insnap (oi_get o i) = false)).
 Proof. exact c03_declarative. Qed.
 Print Assumptions C03_declarative.
+
+(* The stronger oracle that the check evaluates besides the monitor (`holds_C03x`, Sup/Check.v): at EVERY
+   `EShutdownEnd`, NO command at all is alive (for every observed instance: launched => exited) and NO process
+   name is reported Running/Launching/Launched - whatever the snapshot said.  It holds for every accepted
+   history that stayed out of the four windows, for configurations with distinct process names
+   (`wf_confs cs` = no duplicate key in `cs`); the escape hypothesis is NOT needed. *)
+Theorem C03x_partial : forall cs ord evs s,
+  wf_confs cs = true ->
+  accept (init cs ord) evs = Some s ->
+  W_C03 (final_obs cs evs) = false ->
+  holds_C03x cs evs = true.
+Proof. exact C03x_lemma. Qed.
+Print Assumptions C03x_partial.
+
+Example C03x_nonvacuous :
+  wf_confs c03_cs = true /\ W_C03 (final_obs c03_cs evs_c03_ok) = false /\ holds_C03x c03_cs evs_c03_ok = true.
+Proof. exact c03x_nonvacuous. Qed.
 
 (* Without the window hypothesis the statement is false of the model (and of the code: F20/F21): a stop
    that finds the process Pending after it has passed its own "am I terminated" check lets it launch
